@@ -271,14 +271,14 @@ def rigid_rules(ctx):
 
 
 def run(ctx):
-    stored_frame_rule(ctx)
-    fibre_derivative_rule(ctx)
+    ctx.attempt(stored_frame_rule, ctx)
+    ctx.attempt(fibre_derivative_rule, ctx)
     # a re-oriented member / material gives the re-oriented response also on a simulation that was already assembled: no memo keyed by an object whose axes it reads
     from ..shared import memo_rule as _memo_rule, cached_param_rule as _cached_param_rule
 
     _scope = ("EasyFEA.FEM.Elems._beam", "EasyFEA.Models.Beam", "EasyFEA.Simulations._beam", "EasyFEA.FEM._group_elem", "EasyFEA.Models.Elastic")
-    _memo_rule(ctx, "R10.6", scope=lambda f: f.module.name.startswith(_scope), min_instances=0)
-    _cached_param_rule(ctx, "R10.7", min_instances=20)
+    ctx.attempt(_memo_rule, ctx, "R10.6", scope=lambda f: f.module.name.startswith(_scope), min_instances=0)
+    ctx.attempt(_cached_param_rule, ctx, "R10.7", min_instances=20)
     ctx.level = "other"
     ctx.explanation = (
         "Equality of two solves is not decidable statically. Decided necessary conditions: the block matrix applied to the beam N/B matrices is the "
@@ -341,7 +341,8 @@ def stored_frame_rule(ctx):
     for fibre, given in cases:
         r.instance(fn=fset.qualname + ".setter")
         line = SimpleNamespace(unitVector=XArray((3,), list(fibre)))
-        obj = XObj(bm, {bm.mangle("__line"): line, "line": line, "Need_Update": lambda *a, **k: None, "name": "beam"})
+        dim = 2 if fibre[2] == 0 and given[2] == 0 else 3
+        obj = XObj(bm, {bm.mangle("__line"): line, "line": line, "Need_Update": lambda *a, **k: None, "name": "beam", bm.mangle("__dim"): dim, "dim": dim})
         I = Interp(repo, extra_builtins={"print": lambda *a, **k: None})
         I.call_hook = hook
         tag = f"fibre={[str(x) for x in fibre]},given={[str(x) for x in given]}"
